@@ -299,9 +299,169 @@ pub fn run(ctx: &Ctx) {
             }
         }
     });
+    count_layer(ctx);
+}
+
+/// Size thresholds of the replay queues: long lists. The decisive limits only.
+const COUNT_SHAPES: [&str; 5] = [
+    "(<a>x</a><c/>)^n <ab>",
+    "<c/>^n <a>x</a>^n <ab>",
+    "<ab> (<a>x</a><b><a>p</a><b/><a>q</a></b><c/>)^n",
+    "<a>x</a> <c/>^n <a>x</a> <ab> <c/>",
+    "(<b><b/><a>p</a></b>)^n <ab> <a/>^n",
+];
+
+fn count_doc(shape: usize, n: usize) -> (O, Vec<Child>) {
+    let n2 = |inner: &str, a: Vec<&str>, nb: usize, kids: Vec<Child>| {
+        let events = 2 + kids.iter().map(|k| k.events).sum::<usize>();
+        let inner_peak = reference_peak(&kids, &|c| c == 'a' || c == 'b');
+        (N2 { a: a.into_iter().map(String::from).collect(), b: vec![(); nb] }, Child { name: 'b', xml: format!("<b>{}</b>", inner), events, inner_peak })
+    };
+    let s = Child { name: 's', xml: "<ab>v</ab>".into(), events: 3, inner_peak: 0 };
+    let mut kids = Vec::new();
+    let mut v = O { id: 7, a: vec![], b: vec![], c: vec![], ab: "v".into() };
+    match shape {
+        0 => {
+            for _ in 0..n {
+                kids.push(leaf('a', "x"));
+                kids.push(leaf('c', ""));
+            }
+            kids.push(s);
+            v.a = vec!["x".into(); n];
+            v.c = vec![(); n];
+        }
+        1 => {
+            for _ in 0..n {
+                kids.push(leaf('c', ""));
+            }
+            for _ in 0..n {
+                kids.push(leaf('a', "x"));
+            }
+            kids.push(s);
+            v.a = vec!["x".into(); n];
+            v.c = vec![(); n];
+        }
+        2 => {
+            kids.push(s);
+            for _ in 0..n {
+                kids.push(leaf('a', "x"));
+                let (val, ch) = n2("<a>p</a><b/><a>q</a>", vec!["p", "q"], 1, vec![leaf('a', "p"), leaf('b', ""), leaf('a', "q")]);
+                v.b.push(val);
+                kids.push(ch);
+                kids.push(leaf('c', ""));
+            }
+            v.a = vec!["x".into(); n];
+            v.c = vec![(); n];
+        }
+        3 => {
+            kids.push(leaf('a', "x"));
+            for _ in 0..n {
+                kids.push(leaf('c', ""));
+            }
+            kids.push(leaf('a', "x"));
+            kids.push(s);
+            kids.push(leaf('c', ""));
+            v.a = vec!["x".into(); 2];
+            v.c = vec![(); n + 1];
+        }
+        _ => {
+            for _ in 0..n {
+                let (val, ch) = n2("<b/><a>p</a>", vec!["p"], 1, vec![leaf('b', ""), leaf('a', "p")]);
+                v.b.push(val);
+                kids.push(ch);
+            }
+            kids.push(s);
+            for _ in 0..n {
+                kids.push(leaf('a', ""));
+            }
+            v.a = vec!["".into(); n];
+        }
+    }
+    (v, kids)
+}
+
+fn check_counts(v: &O, xml: &str, peak: usize, total: usize) -> Result<u64, String> {
+    let mut n = 0u64;
+    let mut limits: Vec<Option<usize>> = vec![None];
+    for l in [1, 2, peak.saturating_sub(2), peak.saturating_sub(1), peak, peak + 1, total, total + 1] {
+        if l >= 1 {
+            limits.push(Some(l));
+        }
+    }
+    let mut ok_at: Option<usize> = None;
+    let mut sorted: Vec<Option<usize>> = limits.clone();
+    sorted.sort();
+    sorted.dedup();
+    for limit in sorted {
+        n += 2;
+        let a = deserialize(xml, limit)?;
+        let b = deserialize_reader(xml, limit)?;
+        let show = |r: &Result<O, String>| match r {
+            Ok(x) if x == v => "Ok(the value)".to_string(),
+            Ok(_) => "Ok(ANOTHER VALUE)".to_string(),
+            Err(e) => format!("Err({})", e),
+        };
+        if a != b {
+            return Err(format!("with limit {:?} from_str gives {} but from_reader gives {}", limit, show(&a), show(&b)));
+        }
+        match (limit, a) {
+            (_, Ok(got)) if got != *v => return Err(format!("with limit {:?} the document deserializes as another value (lists of {} / {} / {} items)", limit, got.a.len(), got.b.len(), got.c.len())),
+            (None, Ok(_)) => {}
+            (None, Err(e)) => return Err(format!("without a limit deserialization fails with {}", e)),
+            (Some(l), Ok(_)) => {
+                if l < peak {
+                    return Err(format!("{} skipped events have to be held, but deserialization succeeded with event_buffer_size({})", peak, l));
+                }
+                ok_at.get_or_insert(l);
+            }
+            (Some(l), Err(e)) if e == "TooManyEvents" => {
+                if let Some(s) = ok_at {
+                    return Err(format!("succeeded with event_buffer_size({}) but fails with the larger limit {}", s, l));
+                }
+                if l > total {
+                    return Err(format!("the document has only {} events, but event_buffer_size({}) fails with TooManyEvents", total, l));
+                }
+            }
+            (Some(l), Err(e)) => return Err(format!("with event_buffer_size({}) deserialization fails with {}", l, e)),
+        }
+    }
+    Ok(n)
+}
+
+fn count_layer(ctx: &Ctx) {
+    let t = ctx.tier;
+    let ns: Vec<u32> = crate::inputs::size_list(t.pick(24, 80), t.pick(12, 16));
+    let (nn, nsh) = (ns.len() as u64, COUNT_SHAPES.len() as u64);
+    ctx.layer("long_lists", 1, nn * nsh, json!({"shapes": COUNT_SHAPES, "n": format!("0..=dense and around the powers of two ({} sizes)", nn), "limits": "none, 1, 2, peak-2 .. peak+1, events, events+1; from_str and from_reader"}), |i, acc| {
+        let n = ns[(i % nn) as usize] as usize;
+        let shape = (i / nn) as usize;
+        let (v, kids) = count_doc(shape, n);
+        let xml = format!("<O id=\"7\">{}</O>", kids.iter().map(|c| c.xml.as_str()).collect::<String>());
+        let total: usize = kids.iter().map(|c| c.events).sum();
+        let peak = reference_peak(&kids, &|c| c != 's');
+        acc.traces += 1;
+        match check_counts(&v, &xml, peak, total) {
+            Ok(k) => {
+                acc.evaluations += k;
+                acc.transitions += k;
+                acc.nt_count += 1;
+                acc.state(h64(&(total.min(64), peak.min(64))));
+            }
+            Err(what) => acc.violation((1, i), format!("document {} with n = {} ({} events, reference peak {}): {}", COUNT_SHAPES[shape], n, total, peak, what), json!({"count_shape": shape, "n": n})),
+        }
+    });
 }
 
 pub fn replay(case: &Value) -> Result<(), String> {
+    if let Some(shape) = case.get("count_shape").and_then(|s| s.as_u64()) {
+        let n = case["n"].as_u64().unwrap_or(0) as usize;
+        let (v, kids) = count_doc(shape as usize, n);
+        let xml = format!("<O id=\"7\">{}</O>", kids.iter().map(|c| c.xml.as_str()).collect::<String>());
+        let total: usize = kids.iter().map(|c| c.events).sum();
+        let peak = reference_peak(&kids, &|c| c != 's');
+        println!("document {} with n = {}: {} events, reference peak {}", COUNT_SHAPES[shape as usize], n, total, peak);
+        return check_counts(&v, &xml, peak, total).map(|_| ());
+    }
     let xml = case["xml"].as_str().ok_or("no xml")?;
     let vals = values(case["level"].as_u64().unwrap_or(0) as usize);
     let v = &vals[case["value"].as_u64().unwrap() as usize];
